@@ -139,6 +139,8 @@ def op_text(op):
         return "rmobj %d" % op[1]
     if k == "clone":
         return " ".join(["clone"] + [hx(d) for d in (op[1] if len(op) > 1 else [])])
+    if k == "moveproj":
+        return "moveproj %s" % op[1]
     if k in ("wipecache", "oldschema"):
         return k
     raise ValueError(op)
@@ -313,6 +315,18 @@ class Project:
         self.stage_paths = []
         self.harness_corrupted = set()
         self.harness_removed = set()
+
+    def move(self):
+        """rename the project directory to a place at another depth"""
+        self.moves = getattr(self, "moves", 0) + 1
+        new_outer = os.path.join(self.base, "moved%d" % self.moves, "a", "b")
+        os.makedirs(new_outer)
+        new_root = os.path.join(new_outer, "proj")
+        os.rename(self.root, new_root)
+        if self.cache_mode == "rel":
+            self.cache = os.path.join(new_root, ".dud", "cache")
+        self.root = new_root
+        self.cwd = os.path.join(os.fsencode(self.root), self.cwd_sub) if self.cwd_sub else os.fsencode(self.root)
 
     def cleanup(self):
         shutil.rmtree(self.base, ignore_errors=True)
@@ -689,6 +703,8 @@ def apply_op(proj, op, mstep, b3):
             prune(rootb)
         elif k == "oldschema":
             r["x"] = [list(p) for p in convert_old_schema(proj, b3)]
+        elif k == "moveproj":
+            proj.move()
         else:
             raise ValueError(op)
     r["rc"] = rc
